@@ -24,7 +24,8 @@ type LexSpec struct {
 	ReuseBuf    bool `json:"reuse_buf,omitempty"` // pass a reused buffer to Next instead of nil
 	DrainChunk  int  `json:"drain_chunk,omitempty"`
 	MaxTokens   int  `json:"max_tokens,omitempty"`
-	NoOpts      bool `json:"no_opts,omitempty"` // call NewLexer(r) with no options at all
+	NoOpts      bool `json:"no_opts,omitempty"`      // call NewLexer(r) with no options at all
+	ParsedFirst bool `json:"parsed_first,omitempty"` // attachment callback asks ParsedCRC before ComputedCRC
 }
 
 func (s LexSpec) Options(cb func(*mcap.AttachmentReader) error) *mcap.LexerOptions {
@@ -160,14 +161,23 @@ func LexAll(src io.Reader, spec LexSpec) *LexResult {
 			rec.Kind = "attachment_partial"
 			return nil
 		}
-		computed, err := ar.ComputedCRC()
-		if err != nil {
-			return err
-		}
-		parsed, err := ar.ParsedCRC()
-		if err != nil {
-			rec.Kind = "attachment_nocrc"
-			return err
+		var computed, parsed uint32
+		if spec.ParsedFirst {
+			if parsed, err = ar.ParsedCRC(); err != nil {
+				rec.Kind = "attachment_nocrc"
+				return err
+			}
+			if computed, err = ar.ComputedCRC(); err != nil {
+				return err
+			}
+		} else {
+			if computed, err = ar.ComputedCRC(); err != nil {
+				return err
+			}
+			if parsed, err = ar.ParsedCRC(); err != nil {
+				rec.Kind = "attachment_nocrc"
+				return err
+			}
 		}
 		rec.CRC = parsed
 		rec.HasCRC = true
